@@ -338,7 +338,7 @@ def gen_conc_segments(nseg, seed, nthreads=(2, 4), oplen=(3, 14), prefix='conc')
         T = min(T, 3)                       # 3 threads x 2 slots = 6 slots, 3 objects, 3 monitors
         lines = ['pre mock 0', 'pre seq 1', 'pre seq 2']
         for t in range(T):
-            if t + 1 < NMOCK:
+            if t + 1 < NM_ID:
                 lines.append('pre mock %d' % (t + 1))
             lines.append('pre obj %d' % (t + 1))
         # a requirement created by the main thread on thread 1's object and released by thread 0:
@@ -350,7 +350,7 @@ def gen_conc_segments(nseg, seed, nthreads=(2, 4), oplen=(3, 14), prefix='conc')
         focused = cross and rnd.random() < 0.5      # short programs that start with the two racing operations
         for t in range(T):
             own_slots = [2 * t + 1, 2 * t + 2]
-            own_mock = t + 1 if t + 1 < NMOCK else 0
+            own_mock = t + 1 if t + 1 < NM_ID else 0
             own_mock_alive = own_mock != 0
             live = {}
             mon_alive = False
